@@ -986,10 +986,13 @@ func run(c *core.Ctx) {
 	p := &pipelines[pl]
 	desc := p.seqDesc(seq)
 	m := model(p, seq)
-	touched := false
+	touched, usesStar := false, false
 	for _, s := range seq {
 		if s.Op != opRegister && int(s.Name) < userBase {
 			touched = true
+		}
+		if s.Bef == idStar || s.Aft == idStar {
+			usesStar = true
 		}
 	}
 	c.Inc("pipeline_" + p.name)
@@ -1005,10 +1008,16 @@ func run(c *core.Ctx) {
 			}
 			byClass[pr.class] = append(byClass[pr.class], pr.text)
 		}
-		for _, cl := range classes {
+		for _, cl0 := range classes {
+			// sequences that use "*" take a different path through the sorter (the
+			// registry is re-sorted); keep them apart from "*"-free witnesses
+			cl := cl0
+			if usesStar && !strings.Contains(cl, "star") {
+				cl += "+star"
+			}
 			c.Inc("viol_" + mode + "_" + cl)
 			d := map[string]interface{}{"pipeline": p.name, "sequence": desc, "origin": origin, "observation_mode": mode,
-				"every_call_returned": "nil", "problems": byClass[cl], "fired": traceDesc(p, trace)}
+				"every_call_returned": "nil", "problems": byClass[cl0], "fired": traceDesc(p, trace)}
 			for k, v := range extra {
 				d[k] = v
 			}
